@@ -222,7 +222,7 @@ def plain_dates(cells):
     return [f"a result cell holds a {type(bad[0].period_start).__name__}/{type(bad[0].evaluation_date).__name__} coordinate, not a plain date"] if bad else []
 
 
-def coords(rng, shape, P, L, res, feb=None):
+def coords(rng, shape, P, L, res, feb=None, lag_res=None):
     """list of (ps, pe, [evals]) for a complete rectangle / upper-left triangle / single row, column, diagonal.
     feb = a year: periods are laid out so that a period end / evaluation date is the last day of February of it."""
     y0, m0 = rng.randint(2000, 2020), rng.choice([1, 4, 7, 10]) if res != 12 else 1
@@ -247,7 +247,7 @@ def coords(rng, shape, P, L, res, feb=None):
             lags = range(1)
         else:  # diagonal: one evaluation date for all periods
             lags = [P - 1 - p]
-        rows.append((ps, pe, [month_end(*add_m(ey, em, k * res)) for k in lags]))
+        rows.append((ps, pe, [month_end(*add_m(ey, em, k * (lag_res or res))) for k in lags]))
     if shape == "row":
         rows = rows[:1]
     return rows
@@ -267,7 +267,15 @@ def gen_boot_triangle(rng):
     if rng.random() < 0.35:                     # month ends on Feb 28/29: leap years, century rule
         feb = rng.choice([2000, 2000, 2000, 2004, 2024, 2100, 2001, 1996, 2096])
         res = rng.choice([1, 3, 3, 12, 6])
-    rows = coords(rng, shape, P, L, res, feb)
+    lag_res = None
+    if rng.random() < 0.25:
+        # experience periods LONGER than the development step: the evaluation dates of the triangle are unevenly
+        # spaced and the month gaps stand in a divisor relation ({3,9}, {3,6}, {1,11}, {2,10}, {6,18}, {3,3,6}, ...)
+        res, lag_res, L = rng.choice([(12, 3, 2), (12, 3, 2), (9, 3, 2), (12, 1, 2), (12, 2, 2), (24, 6, 2), (12, 3, 3), (12, 6, 2),
+                                      (12, 4, 2), (6, 2, 2), (6, 1, 3)])
+        shape, feb = rng.choice(["rect", "rect", "tri"]), None
+        P = max(P, 2)
+    rows = coords(rng, shape, P, L, res, feb, lag_res)
     cells = []
     small_first = rng.random() < 0.35     # minimum of a series small relative to its steps
     cf = coord_forms(rng)
@@ -283,7 +291,7 @@ def gen_boot_triangle(rng):
                 cells.append(CumulativeCell(period_start=cf(ps, 0), period_end=cf(pe, 1), evaluation_date=cf(e, 2), values=vals,
                                             metadata=rng.choice(m)))
     rng.shuffle(cells)
-    return Triangle(cells), {"shape": shape, "P": P, "L": L, "slices": n_slices, "fields": fields, "feb": feb, "res": res}
+    return Triangle(cells), {"shape": shape, "P": P, "L": L, "slices": n_slices, "fields": fields, "feb": feb, "res": res, "lag_res": lag_res}
 
 
 def gen_sample_triangle(rng, positive=False):
@@ -1076,6 +1084,8 @@ def run(ctx):
             if kind == "bootstrap":
                 if info.get("feb"):
                     ctx.hist(f"bootstrap:month ends incl. February {info['feb']}")
+                if info.get("lag_res"):
+                    ctx.hist(f"bootstrap:uneven evaluation spacing (period {info['res']}m, step {info['lag_res']}m)")
                 for m in info.get("methods", []):
                     ctx.hist(f"bootstrap:method={m}")
                 ctx.hist("bootstrap:max-entropy series", info.get("me_series", 0))
